@@ -190,6 +190,11 @@ class FunctionLogger:
         )
         self.func_count += 1
 
+        # The SD of the returned value: after a merge of repeated observations
+        # (specified noise) this is the combined SD stored in the log
+        if self.he_noise_flag and record_duplicate_data and idx is not None:
+            fsd = self.S[idx].item()
+
         return fval, fsd, idx
 
     def add(
